@@ -226,6 +226,25 @@ def check_out_guard(rep):
             R.notes.append('%s: store without a base register not decided: %s' % (sym, i.text))
     if n == 0:
         raise AnalysisBroken('no encode_deflate_icf kernels found')
+    # level-0 bodies: bit buffer inside the stream, bound compared as a memory operand
+    import mirror
+    R0 = rep.rule('M-OUT-GUARD-L0', 'level-0 asm bodies (isal_deflate_body_<isa>, isal_deflate_finish_01): every store through the output pointer is preceded on every path, with no advance of the pointer in between, '
+                  'by "cmp pointer, [stream->internal_state.bitbuf.m_out_end]" whose pass edge leads to it; displacement + width <= the reserve the kernel itself subtracts when it sets m_out_end (SLOP), which equals set_buf()\'s', floor=4, unit='kernels')
+    av, drop = mirror.asm_values('default', ['options.asm', 'lz0a_const.asm', 'data_struct2.asm', 'bitbuf2.asm'], ['SLOP'], 'c10_slop')
+    slop = av.get('SLOP')
+    for sym, info in sorted(res.items()):
+        if info['fam']['family'] != 'igzip_deflate' or 'icf' in sym:
+            continue
+        R0.instance()
+        u, f = info['unit'], info['func']
+        stores, ng = outguard.analyse_stream(u, f, info['flow'], info['accesses'], o['_internal_state_bitbuf_m_out_end'])
+        if not stores or not ng:
+            raise AnalysisBroken('%s: no output stores / m_out_end comparisons recognised (%d/%d)' % (sym, len(stores), ng))
+        R0.check(slop == mg, '%s:%s' % (u.name, sym), 'asm SLOP is %s, set_buf() reserves %d bytes behind m_out_end' % (slop, mg), key='M-OUT-GUARD-L0|%s|slop' % sym)
+        for i, reg, disp, width, g in stores:
+            ok = not isinstance(g, str) and disp + width <= mg
+            R0.check(ok, '%s: %s' % (u.name, u.where(i, f)), 'store of %d bytes at displacement %d through the output pointer: %s' % (width, disp, g if isinstance(g, str) else 'exceeds the %d-byte reserve' % mg),
+                     key='M-OUT-GUARD-L0|%s|%#x' % (sym, i.addr - f.entry), sample='%s: %d-byte store after cmp with m_out_end (%d guard edges)' % (sym, width, g) if not isinstance(g, str) and sym.endswith('_04') else None)
 
 
 def main(tier):
